@@ -229,6 +229,12 @@ def time_taint_offline(ix, rep, mon, rule='R-TAINT'):
                 if isinstance(v, ast.Call) and isinstance(v.func, ast.Name) and v.func.id == 'len':
                     continue
                 dep = any(is_time_read(n) for n in ast.walk(v)) or (_names_in(v) & tainted)
+                # a helper that is handed the data set and reads its 'time' column returns something that depends on the time-stamps
+                if not dep and isinstance(v, ast.Call) and isinstance(v.func, ast.Attribute) and isinstance(v.func.value, ast.Name) and v.func.value.id == 'self' \
+                        and any(isinstance(n, ast.Name) and n.id == dparam for a in v.args for n in ast.walk(a)):
+                    h = ix.resolve_method(mon.cls, v.func.attr)
+                    if h is not None and any(isinstance(n, ast.Subscript) and isinstance(n.slice, ast.Constant) and n.slice.value == 'time' for n in ast.walk(h.node)):
+                        dep = True
                 if dep and st.targets[0].id not in tainted:
                     tainted.add(st.targets[0].id)
                     changed = True
@@ -250,6 +256,17 @@ def time_taint_offline(ix, rep, mon, rule='R-TAINT'):
                         bad = True
                         rep.fail(rule, f.module.rel, f.qual, 'time->visit', 'the time column flows into the evaluation '
                                  '(`%s`): robustness would depend on the numeric time-stamps' % ast.unparse(c)[:70], c.lineno)
+    # ... nor into what is stored for the variables: the data-entry call receives the caller's data set, not one rebuilt along the time column
+    for c in ast.walk(f.node):
+        if isinstance(c, ast.Call) and isinstance(c.func, ast.Attribute) and c.func.attr == 'set_variable_to_ast_from_dataset':
+            nsites += 1
+            for a in c.args:
+                for n in ast.walk(a):
+                    if isinstance(n, ast.Name) and n.id in tainted:
+                        bad = True
+                        rep.fail(rule, f.module.rel, f.qual, 'time->entry', 'the data set handed to the data entry (`%s`) has been rebuilt from the time column: which samples the monitor '
+                                 'sees -- and so the robustness -- depends on the numeric time-stamps (two samples with one time-stamp, a later one replacing an earlier one)'
+                                 % ast.unparse(a)[:50], c.lineno)
     if nsites == 0:
         rep.fail(rule, f.module.rel, f.qual, 'time->visit', 'evaluate() no longer calls visitAst', f.node.lineno)
     elif not bad:
